@@ -31,9 +31,10 @@ def main():
                 stages = stages + list(mod.STAGES_THOROUGH)
             ctx.prove(stages, timeout=getattr(mod, 'COQ_TIMEOUT', 900))
             if a.tier == 'thorough' and not any(b['kind'] == 'proof' for b in ctx.broken):
-                last = mod.STAGES[-1][-1]
-                last = last[0] if isinstance(last, (tuple, list)) else last
-                ctx.coqchk(last[:-2])
+                # the property file (<ID>.v, the one holding the stated theorems) and its whole cone
+                names = [(f[0] if isinstance(f, (tuple, list)) else f) for st in mod.STAGES for f in st]
+                last = getattr(mod, 'COQCHK', None) or (f'{a.pid}.v' if f'{a.pid}.v' in names else names[-1])
+                ctx.coqchk(last[:-2], timeout=getattr(mod, 'COQCHK_TIMEOUT', 1200))
         # 3. correspondence model <-> implementation
         if hasattr(mod, 'correspondence'):
             mod.correspondence(ctx)
